@@ -352,7 +352,10 @@ class BaseTemplate:
         filename = str(self.filename)
         sha = get_pkg_digest()
         sha.update(class_name + b'\n')
-        sha.update(filename.encode('utf-8', 'surrogatepass') + b'\n')
+        # (as a literal: a file name is arbitrary text, a line break in
+        # it must not end the field)
+        sha.update(
+            repr(filename).encode('utf-8', 'surrogatepass') + b'\n')
         sha.update(body.encode('utf-8', 'surrogatepass'))
         digest = sha.hexdigest()
 
